@@ -101,6 +101,28 @@ Holds trivially when ids are pairwise distinct, and for shared sub-trees. -/
 def Rel.MarkersConsistent (σ : Leaves) (r : Rel) : Prop :=
   ∀ p q, p ∈ r.markers σ → q ∈ r.markers σ → p.1 = q.1 → p.2 = q.2
 
+/-! ### Engine consistency and structural well-formedness (C14) -/
+
+/-- What C14 demands of a tree beyond `Rel.WF` (in the model an operation node's engine *is* its
+operand's, so "each operation node lives in the engine of its operand" holds by construction):
+binary operands share an engine, transfers never connect an engine to itself, join nodes carry
+common columns that both operands have, the placeholders `Identity` / `IgnoreOne` are never nodes,
+and every expression is supported by the engine of the node holding it. -/
+def Rel.EngineOK : Rel → Prop
+  | .leaf .. => True
+  | .unary op t _ =>
+    Rel.EngineOK t ∧ op.isIdentity = false ∧ op.isSupportedBy t.engine.kind = true
+  | .binary op l r _ =>
+    Rel.EngineOK l ∧ Rel.EngineOK r ∧ l.engine = r.engine ∧
+      (match op with
+       | .chain => True
+       | .join j => j.minCols.subset l.columns = true ∧ j.minCols.subset r.columns = true ∧
+                    j.pred.isSupportedBy l.engine.kind = true
+       | .ignoreOne _ => False)
+  | .mat _ _ t => Rel.EngineOK t
+  | .transfer _ d t => Rel.EngineOK t ∧ d ≠ t.engine
+  | .select _ _ _ _ _ _ _ _ t => Rel.EngineOK t
+
 /-! ### Materialization bookkeeping (C10) -/
 
 /-- Allocation ids of the materialization nodes of a tree. -/
